@@ -524,6 +524,10 @@ func runC07(c *Ctx) {
 	checkNoRelabelAsMissing(c, "siblings.no-relabel")
 	checkGenericErrorDiscipline(c, "pkg/core")
 	checkBatchDistributesAllKeys(c, "siblings.batch-distributes-all")
+	if n := checkNoReuseAfterSend(c, "siblings.no-reuse-after-send", "pkg/core"); n == 0 {
+		c.ok("siblings.no-reuse-after-send", "pkg/core:scan", "-", "no slice of pkg/core is recycled in place (append(x[:0], …)) and sent on a channel")
+	}
+	checkDescriptorConsulted(c, "siblings.descriptor-consulted")
 }
 
 // checkMergeKeysState is shared by several properties (the clause is necessary for each of them).
